@@ -393,8 +393,13 @@ func termRules(c *Ctx) {
 				}
 			}
 			// cycles made of "equal" edges only are bad too
-			if bad == 0 && hasEqualCycle(scc, edges, rel) {
-				bad = len(edges) + 1
+			if hasEqualCycle(scc, edges, rel) {
+				for ei := range rel {
+					if rel[ei] == "equal" {
+						rel[ei] = "bad"
+						bad++
+					}
+				}
 			}
 			if best == -1 || bad < best {
 				best, bestRel, bestAssign = bad, rel, assign
